@@ -112,6 +112,24 @@ impl DetectProp for C01 {
         let mut s = Sett::default();
         s.incl = vec!["ascii".into(), "utf-8".into(), "windows-1252".into(), "koi8-r".into(), "iso-8859-15".into()];
         v.push(Case { bytes: big(1_000_050, 900_000), sett: s.clone(), tag: "directed:large-filtered:tail".into() });
+        // between the 500,000-byte prefix limit and the 1,000,000-byte limit: the only byte the sibling code pages read
+        // differently (same width in UTF-8) lies beyond the first 500,000 characters and outside every sampled chunk –
+        // pages listed beside each other must still decode the whole input alike
+        {
+            let french = enc_bytes_lossy("Le c\u{153}ur a ses raisons que la raison ne conna\u{ee}t point ; d\u{e9}j\u{e0} l'\u{e9}t\u{e9} s'ach\u{e8}ve. ", "windows-1252");
+            let mid = |len: usize, pos: usize, byte: u8, accented: bool| -> Vec<u8> {
+                let unit: Vec<u8> = if accented { french.clone() } else { b"Lorem ipsum dolor sit amet, consectetur adipiscing elit. ".to_vec() };
+                let mut b: Vec<u8> = unit.iter().cycle().take(len).cloned().collect();
+                b[pos] = byte;
+                b
+            };
+            v.push(Case { bytes: mid(600_000, 550_001, 0xf0, true), sett: Sett::default(), tag: "nomodel:mid-size:distinguishing-byte-beyond-500000:accented".into() });
+            if thorough {
+                v.push(Case { bytes: mid(600_000, 550_001, 0xf0, false), sett: Sett::default(), tag: "nomodel:mid-size:distinguishing-byte-beyond-500000".into() });
+                v.push(Case { bytes: mid(999_000, 998_999, 0xfe, false), sett: Sett::default(), tag: "nomodel:mid-size:distinguishing-byte-last".into() });
+                v.push(Case { bytes: mid(500_200, 500_100, 0xd0, true), sett: Sett::default(), tag: "nomodel:mid-size:distinguishing-byte-just-beyond".into() });
+            }
+        }
         // > 1 MB declaring a code page that cannot decode one tail byte; threshold 0 so that only the
         // fallback slots can answer
         let mut rng = Rng::new(4242);
@@ -217,6 +235,23 @@ impl DetectProp for C01 {
         }
         cx.rep.oracle_checked += 1;
         for m in ms.iter() {
+            // every encoding listed beside the match – whatever the library keeps for it internally – must decode the
+            // input to the text the *match* exposes
+            for enc in m.suitable_encodings() {
+                let enc: &str = enc.as_str();
+                if enc == m.encoding() {
+                    continue;
+                }
+                cx.rep.count("oracle:alternative-vs-exposed-text");
+                let want = direct_decode(enc, strip_own_mark(enc, &case.bytes));
+                if want.as_deref() != m.decoded_payload() {
+                    let at = match (&want, m.decoded_payload()) {
+                        (Some(w), Some(g)) => w.chars().zip(g.chars()).position(|(a, b)| a != b).map(|p| p.to_string()).unwrap_or_else(|| "length".into()),
+                        _ => "-".into(),
+                    };
+                    cx.rep.fail("oracle", "C01:alternative-decodes-to-another-text", &format!("{} is listed beside {} but strictly decodes the input to a different text (first difference at character {})", enc, m.encoding(), at), &case.bytes, Some(s), &case.tag);
+                }
+            }
             for e in entries(m) {
                 let enc = e.encoding();
                 cx.rep.count("oracle:candidate");
